@@ -11,7 +11,9 @@ Shape S.  The enumerated space is
                region; global functions / variables / macros / enums / classes / typedefs
                inside or outside a publish region; static/deleted/template/rvalue functions;
                namespace members (unreferenced / referenced by an exported signature); a
-               foreign type named by an exported signature or base list
+               foreign type named by an exported signature or base list; a derived class
+               re-declaring an inherited virtual (base declaration x derived declaration
+               sections, 8 inheritance shapes, const/pure) which must stay reachable
   x placement  command-line file, second command-line file, header found in cwd, header
                found via the includer's directory, via -I, via -S (<> and ""), .cxx file
                (included / named on the command line)
@@ -164,6 +166,9 @@ class Observed:
         self.dtor = set()        # class names with a destructor recorded
         self.cls_defined = set() # scoped names of class/enum/typedef records that are defined
         self.cls_any_fn = set()  # first components of every function record
+        self.fn_scoped = set()   # scoped names of all function records
+        self.methods = {}        # class scoped name -> simple names of its recorded methods
+        self.bases = {}          # class scoped name -> scoped names of its recorded bases
         nested_listed = set()
         for t in T.values():
             nested_listed.update(t["nested_types"])
@@ -187,6 +192,11 @@ class Observed:
                 or t["enum_values"]
             listed = int(i) in glob or int(i) in nested_listed
             if fl & T_CLASSISH and not (fl & (T_ENUM | T_TYPEDEF)):
+                self.methods[t["scoped_name"]] = set(
+                    F[str(m)]["name"] for m in t["methods"] if str(m) in F
+                    and (F[str(m)]["c_wrappers"] or F[str(m)]["python_wrappers"]))
+                self.bases[t["scoped_name"]] = [T[str(d["base"])]["scoped_name"]
+                                                for d in t["derivations"] if str(d["base"]) in T]
                 if defined:
                     self.cls_defined.add(t["scoped_name"])
                     expose(t["scoped_name"])
@@ -201,6 +211,7 @@ class Observed:
             sn = f["scoped_name"]
             comps = sn.split("::")
             self.cls_any_fn.add(comps[0])
+            self.fn_scoped.add(sn)
             fl = f["flags"]
             if fl & F_DTOR:
                 self.dtor.add("::".join(comps[:-1]))
@@ -226,6 +237,20 @@ class Observed:
         for s in db["make_seqs"].values():
             expose(s["scoped_name"])
         self.wrapper_names = set(w["name"] for w in W.values())
+
+    def reachable(self, cls, fname):
+        """is a callable method `fname` recorded for `cls` or for a class the database lists
+        (transitively) among its bases?"""
+        seen, todo = set(), [cls]
+        while todo:
+            c = todo.pop()
+            if c in seen:
+                continue
+            seen.add(c)
+            if fname in self.methods.get(c, ()):
+                return True
+            todo += self.bases.get(c, [])
+        return False
 
 
 def judge(atom, placement, promiscuous, cmd, obs):
@@ -267,6 +292,20 @@ def judge(atom, placement, promiscuous, cmd, obs):
                 leaks.append((ident, "constructor wrapper with that many int parameters exists"))
             elif verdict == "present" and not seen:
                 missing.append((ident, "no constructor wrapper with that many int parameters"))
+            continue
+        if ident.startswith("@fn/"):
+            seen = ident[4:] in obs.fn_scoped
+            if verdict == "absent" and seen:
+                leaks.append((ident, "function record exists"))
+            elif verdict == "present" and not seen:
+                missing.append((ident, "no function record"))
+            continue
+        if ident.startswith("@reach/"):
+            _, cls, fname = ident.split("/")
+            if verdict == "present" and not obs.reachable(cls, fname):
+                missing.append((ident, "a method declared with the requested visibility is recorded "
+                                       "neither for the class nor for any base class the database "
+                                       "lists for it"))
             continue
         if ident == "@dtor":
             seen = atom.cname in obs.dtor
@@ -319,6 +358,9 @@ def make_bundles(tier, only):
         placed[pl] = class_list(1, hg.LABELS, in_publish=(False, True)) + globals_list()
         if LOCAL[pl]:
             placed[pl] += [hg.RefAtom(pfx("r"), how) for how in ("sig", "base")]
+    # inherited virtual overrides: in the command-line file, a cwd header and an -I header
+    for pl in ("main", "cwd", "I"):
+        placed[pl] += [hg.VirtAtom(pfx("v"), *x) for x in hg.virt_space(tier)]
     out.append((Bundle("singles-all-placements", placed), ALL + PYN))
     # 2. all ordered pairs over the 12 kinds x 7 labels in the command-line file
     chunked("pairs-main", "main", class_list(2, hg.LABELS), 1000, NOCWD)
@@ -501,7 +543,9 @@ def main():
             "friend declarations in a visible section, ignoremember naming a nested type, a "
             "typedef outside a publish region aliasing an exported class, the unlabelled leading "
             "section of a struct inside a publish region: unjudged",
-            "layouts with two destructors are not valid programs and are skipped"],
+            "layouts with two destructors are not valid programs and are skipped",
+            "a re-declared inherited virtual may be elided from the derived class iff the method "
+            "stays callable through a base class the database lists for it (reachability)"],
         extra=dict(stats, suppressed_duplicate_failures=suppressed,
                    bundles=[{"name": x.name, "atoms": x.n, "configs": len(c)} for x, c in plan]))
 
@@ -512,6 +556,8 @@ def atom_args(a):
                 "struct": a.struct}
     if isinstance(a, hg.GlobalAtom):
         return {"kind": a.kind, "in_publish": a.in_publish}
+    if isinstance(a, hg.VirtAtom):
+        return {"virt": [a.base_sec, a.der_sec, a.inh, a.constness, a.pure]}
     return {"how": a.how}
 
 
@@ -522,6 +568,8 @@ def atom_from(d):
                             args.get("struct", False))
     if cls == "GlobalAtom":
         return hg.GlobalAtom(p, args["kind"], args["in_publish"])
+    if cls == "VirtAtom":
+        return hg.VirtAtom(p, *args["virt"])
     return hg.RefAtom(p, args["how"])
 
 
